@@ -14,11 +14,14 @@ DEP = ['ftp', 'btp', 'mi']
 EPS = Fraction(1, 10**9)
 
 
+MARK = ('<utterance boundary>',)      # equal to no unit (the code used the string 'UB' before fix 52858bf)
+
+
 def stream(text_units):
     s = []
     for i, u in enumerate(text_units):
         if i:
-            s.append('UB')
+            s.append(MARK)
         s.extend(u)
     return s
 
@@ -95,11 +98,7 @@ def expected_cuts(text_units, train_units, thr, dep):
 
 def in_scope(text_units, train_units):
     """inputs on which the positional rule is defined and C01 holds:
-    units are not the marker, no 'UB' inside an utterance, >= 3 units"""
-    for t in (text_units, train_units or []):
-        for u in t:
-            if 'UB' in ''.join(u):
-                return False
+    >= 3 units (texts containing 'UB' are in scope since fix 52858bf)"""
     return sum(len(u) for u in text_units) + max(0, len(text_units) - 1) >= 3
 
 
